@@ -56,9 +56,9 @@ def asserted_on(fn, local):
 
 
 def check(ctx, rep):
-    rep.rule('R12.a', 'every boundary error is propagated, never unwrapped, asserted on or discarded', floor=8)
+    rep.rule('R12.a', 'every boundary error is propagated, never unwrapped, asserted on or discarded', floor=5)
     rep.rule('R12.b', 'malformed input is rejected before the core is touched', floor=2)
-    rep.rule('R12.d', 'explicit panics in the boundary modules are exactly the tabled ones', floor=5)
+    rep.rule('R12.d', 'explicit panics in the boundary modules are exactly the tabled ones', floor=2)
     rep.rule('R12.e', 'the bincode deserialisers read from a bounded slice', floor=2)
     core = ctx.crate('default', 'crux_core')
     if core is None:
@@ -83,39 +83,42 @@ def check(ctx, rep):
                 key += '|asserted'
             rep.expect('R12.a', ok, key, 'failure of %s reaches the error return' % last_seg(c),
                        '%s: the error of %s is not propagated cleanly: %s' % (f.where(bb), c, why))
-    # R12.b
-    bp = c06.method(core, 'crux_core::bridge::BridgeWithSerializer', 'process')
-    if bp is None:
-        rep.missing('R12.b', 'BridgeWithSerializer::process')
-    else:
-        pe = [(bb, t) for bb, t in bp.calls('crux_core::core::Core::process_event')]
-        pr = [(bb, t) for bb, t in bp.calls('crux_core::core::Core::process')]
-        rs = [(bb, t) for bb, t in bp.calls('crux_core::bridge::registry::ResolveRegistry::resume')]
+    # R12.b (sites are found wherever they are in the bridge module, so that helper extraction does not matter)
+    from rules.common import Summaries
+    sm0 = Summaries([core])
+    pe_sites = [(f, bb, t) for f in fns for bb, t in f.calls('crux_core::core::Core::process_event')]
+    ok = len(pe_sites) == 1
+    if ok:
+        f, bb, t = pe_sites[0]
+        src = origins(f, t['args'][1])
+        ok = bool(src) and all(o.kind == 'call' and any(s_[0] == 'try' for s_ in o.steps) and
+                               (call_matches(o.term, ['core::result::Result::map_err']) or 'deserialize' in norm(o.term.get('callee') or ''))
+                               for o in src)
+    rep.expect('R12.b', ok, 'event-is-ok-payload', 'process_event receives `deserialize(data).map_err(..)?`',
+               'the bridge hands the core an event that is not the Ok payload of the deserialisation')
+    rs_sites = [(f, bb, t) for f in fns for bb, t in f.calls('crux_core::bridge::registry::ResolveRegistry::resume')]
+    ok = len(rs_sites) == 1
+    if ok:
+        f, rb, rt = rs_sites[0]
+        pr = sm0.sites(f, ['crux_core::core::Core::process'], 'may')
         ok = False
-        if len(pe) == 1:
-            src = origins(bp, pe[0][1]['args'][1])
-            ok = bool(src) and all(o.kind == 'call' and any(s[0] == 'try' for s in o.steps) and
-                                   (call_matches(o.term, ['core::result::Result::map_err']) or 'deserialize' in norm(o.term.get('callee') or ''))
-                                   for o in src)
-        rep.expect('R12.b', ok, 'event-is-ok-payload', 'process_event receives `deserialize(data).map_err(..)?`',
-                   'BridgeWithSerializer::process hands the core an event that is not the Ok payload of the deserialisation')
-        ok = False
-        if len(pr) == 1 and len(rs) == 1:
-            # Core::process only along the Continue edge of `resume(..)?`
-            branch = [(bb, t) for bb, t in bp.calls('core::ops::try_trait::Try::branch')
-                      if any(o.kind == 'call' and o.bb == rs[0][0] for o in origins(bp, t['args'][0]))]
-            if branch:
-                res_l = branch[0][1]['d']['l']
-                for sb, st in bp.terms('switch'):
-                    if any(o.kind == 'rvalue' and o.stmt['rv']['k'] == 'discr' and o.stmt['rv']['a']['l'] == res_l for o in origins(bp, st['a'])):
-                        cont = None
-                        for v, b in st['arms']:
-                            if v == 0:
-                                cont = (sb, b)
-                        if cont and pr[0][0] not in bp.reachable([rs[0][0]], removed_edges=[cont]):
-                            ok = True
-        rep.expect('R12.b', ok, 'process-after-ok-resume', 'Core::process is reachable from resume only along the Ok edge of `?`',
-                   'BridgeWithSerializer::process runs the core although resume returned an error')
+        branch = [(bb, t) for bb, t in f.calls('core::ops::try_trait::Try::branch')
+                  if any(o.kind == 'call' and o.bb == rb for o in origins(f, t['args'][0]))]
+        if branch and pr:
+            res_l = branch[0][1]['d']['l']
+            for sb, st in f.terms('switch'):
+                if any(o.kind == 'rvalue' and o.stmt['rv']['k'] == 'discr' and o.stmt['rv']['a']['l'] == res_l for o in origins(f, st['a'])):
+                    cont = None
+                    for v, b in st['arms']:
+                        if v == 0:
+                            cont = (sb, b)
+                    if cont and all(p_ not in f.reachable([rb], removed_edges=[cont]) for p_ in pr):
+                        ok = True
+        elif not pr:
+            # the function returns the result of resume; the caller must run the core only on Ok — not modelled: fail closed
+            ok = False
+    rep.expect('R12.b', ok, 'process-after-ok-resume', 'Core::process is reachable from resume only along the Ok edge of `?`',
+               'the bridge runs the core although resume returned an error')
     # R12.f: no input-caused rejection after the core has been entered
     rep.rule('R12.f', 'an error that blames the input (DeserializeEvent / DeserializeOutput / ProcessResponse) is only produced before the core is entered', floor=3)
     from rules.common import Summaries
